@@ -19,6 +19,10 @@ func main() {
 		fmt.Fprintln(os.Stderr, "usage: harness <property> [-seed n] [-tier quick|thorough] [-out dir] [-replay file]")
 		os.Exit(2)
 	}
+	if os.Args[1] == "C19CHILD" {
+		runC19Child()
+		return
+	}
 	prop := strings.ToUpper(os.Args[1])
 	fs := flag.NewFlagSet("harness", flag.ExitOnError)
 	seed := fs.Uint64("seed", 1, "PRNG seed")
